@@ -608,6 +608,28 @@ class MWFNW(Fmt):
         return "m.mwfn", text, exp, {}
 
 
+class ORCALOG(Fmt):
+    name = "orcalog"
+    space = [("natom", [3, 1, 12]), ("coords", ["small", "negative"]), ("steps", [1, 3]), ("dipole", [True, False]), ("scf_cycles", [4, 1, 12]), ("name", ["calc.out", "orca_job.out"])]
+
+    def make(self, c, seed):
+        n = c["natom"]
+        z = elements("many", n, seed)
+        final = coords(c["coords"], n, 6, 1.0, seed)  # the table in atomic units has six decimals
+        steps = []
+        for k in range(c["steps"]):
+            last = k == c["steps"] - 1
+            xyz = final if last else final + 0.125 * (c["steps"] - k)
+            scf = [round(-76.0 - 0.25 * k - 0.01 * j - 0.001 * j * j, 8) for j in range(c["scf_cycles"])]
+            steps.append((xyz, scf, round(scf[-1] - 0.000123456789, 12)))
+        dip = np.array([0.76499, -0.12345, 0.5423]) if c["dipole"] else None
+        text = writers.orca_log(z, steps, dip)
+        exp = [("atnums", z, None), ("atcoords", final, 1e-12), ("energy", steps[-1][2], 1e-12), ("extra.scf_energies", steps[-1][1], 1e-12)]
+        if dip is not None:
+            exp.append(("moments.(1, 'c')", dip, 1e-12))
+        return c["name"], text, exp, {}
+
+
 class QCSCHEMA(Fmt):
     """QCSchema JSON written with the json module from the documented field tables (molecule / input / output)."""
 
@@ -702,7 +724,7 @@ class GAMESS(Fmt):
         return "m.dat", text, exp, {}
 
 
-FORMATS = [FCHKW(), WFNW(), WFXW(), MWFNW(), GAMESS(), QCSCHEMA(), XYZ(), EXTXYZ(), PDB(), MOL2(), SDF(), GRO(), CRD(), VASP(), CHGCAR(), LOCPOT(), CUBE(), GJF(), FCIDUMP(), GLOG()]
+FORMATS = [FCHKW(), WFNW(), WFXW(), MWFNW(), GAMESS(), QCSCHEMA(), ORCALOG(), XYZ(), EXTXYZ(), PDB(), MOL2(), SDF(), GRO(), CRD(), VASP(), CHGCAR(), LOCPOT(), CUBE(), GJF(), FCIDUMP(), GLOG()]
 
 
 def lookup(obj, path):
